@@ -62,6 +62,11 @@ class Extractor:
                     t = t[1] if p["f"] == 0 else ("const", 0)
                 else:
                     t = ("field", t, p["n"] if p["n"] is not None else p["f"])
+            elif isinstance(p, dict) and "cix" in p and not p.get("end"):
+                t = ("index", t, ("const", int(p["cix"])))
+            elif isinstance(p, dict) and "ix" in p:
+                it = env.get(p["ix"])
+                t = ("index", t, it if it is not None else ("opaque", "index _%d" % p["ix"]))
             else:
                 t = ("opaque", "proj")
         return t
@@ -119,6 +124,8 @@ class Extractor:
                 return ("tuple", ops)
             if rv["ak"] == "closure":
                 return ("closure", rv["def"], ops)
+            if rv["ak"] == "array":
+                return ("array", ops)
             return ("opaque", "agg " + rv["ak"])
         return ("opaque", "rv " + k)
 
@@ -368,6 +375,15 @@ class Evaluator:
             return Opaque("payload")
         if k == "downcast":
             return self.term(t[1], args)
+        if k == "index":
+            base = self.term(t[1], args)
+            ix = self.term(t[2], args)
+            hook = self.bind.get(("index_byte",))
+            if hook is not None and isinstance(ix, int):
+                return hook(base, ix)
+            return Opaque("index")
+        if k == "array":
+            return ("arrayvals", tuple(self.term(x, args) for x in t[1]))
         if k == "field":
             v = self.term(t[1], args)
             if isinstance(v, dict) and t[2] in v:
